@@ -239,6 +239,9 @@ class CallTracer:
         self.logger = logger
         self.traces: Dict[FrameType, CallTrace] = {}
         self.sample_rate = sample_rate
+        # A private generator: drawing from the module-level one would change
+        # the random stream of the traced program
+        self.sampler = random.Random()
         # Keyed by file name as well: code objects compare equal regardless of
         # the file they were compiled from
         self.cache: Dict[Tuple[str, CodeType], Optional[Callable[..., Any]]] = {}
@@ -253,7 +256,7 @@ class CallTracer:
         return self.cache[key]
 
     def handle_call(self, frame: FrameType) -> None:
-        if self.sample_rate and random.randrange(self.sample_rate) != 0:
+        if self.sample_rate and self.sampler.randrange(self.sample_rate) != 0:
             return
         func = self._get_func(frame)
         if func is None:
